@@ -323,9 +323,27 @@ def address_cases(rng, fill):
     return cases
 
 
+def boolean_cases(rng, fill):
+    """boolean_literal ::= [ 'BOOL#' ] ( '1' | '0' | 'TRUE' | 'FALSE' ): nothing else is a Boolean value."""
+    cases = []
+    for text, b in (("TRUE", True), ("FALSE", False), ("true", True), ("False", False), ("BOOL#TRUE", True),
+                    ("BOOL#FALSE", False), ("bool#true", True), ("Bool#False", False), ("BOOL#1", True), ("BOOL#0", False),
+                    ("bool#1", True), ("bool#0", False)):
+        cases.append(lit_case("bool", "typed" if "#" in text else "plain", text, ACCEPT, ["bool", b], vtype="BOOL"))
+    outside = ["2", "3", "9", "10", "11", "100", "255", "256", "1_0", "65536", str(1 << 32), str(1 << 64), "-1", "16#2", "2#10"]
+    for _ in range(4 + fill // 16):
+        outside.append(str(rng.randint(2, 10 ** rng.randint(1, 25))))
+    for t in outside:
+        for pfx in ("BOOL#", "bool#"):
+            cases.append(lit_case("bool", "typed.not-0-or-1", pfx + t, REJECT, None, vtype="BOOL"))
+    for t in ("01", "00", "0_1", "1_", "16#1", "2#1", "+1", "TRUE_", "T"):
+        cases.append(lit_case("bool", "typed.other-spelling", "BOOL#" + t, EITHER, None, vtype="BOOL"))
+    return cases
+
+
 def all_cases(rng, fill):
     return (integer_cases(rng, fill) + real_cases(rng, fill) + duration_cases(rng, fill) + datetime_cases(rng, fill) +
-            string_cases(rng, fill) + address_cases(rng, fill))
+            string_cases(rng, fill) + address_cases(rng, fill) + boolean_cases(rng, fill))
 
 
 # ---------------------------------------------------------------- observation and verdict
